@@ -206,6 +206,85 @@ def sdf_write_read(mol_specs, nl, route, ext, d):
     return mols_in, wexc, lines_of(data), back
 
 
+# ---------------------------------------------------------------- .mol2 files (extension: Mol2File.tla)
+def _f4(v):
+    a = abs(v)
+    return ("-" if v < 0 else "") + "%d.%04d" % (a // 10000, a % 10000)
+
+
+def drive_mol2(rec):
+    import numpy as np
+    from chmpy import Molecule
+    atoms, bonds, name = rec["atoms"], rec["bonds"], rec["name"]
+    lines = ["@<TRIPOS>MOLECULE", name, " %d %d 1 0 0" % (len(atoms), len(bonds)), "SMALL", "NO_CHARGES", "", "@<TRIPOS>ATOM"]
+    for k, a in enumerate(atoms):
+        lines.append(str(k + 1).rjust(7) + " " + a["name"].ljust(8) + _f4(a["x"]).rjust(10) + _f4(a["y"]).rjust(10) + _f4(a["z"]).rjust(10)
+                     + " " + (SYMBOLS[a["zel"] - 1] + a["suffix"]).ljust(6) + "  1  LIG1" + _f4(0).rjust(10))
+    lines.append("@<TRIPOS>BOND")
+    for k, b in enumerate(bonds):
+        lines.append(str(k + 1).rjust(6) + str(b["a"]).rjust(6) + str(b["b"]).rjust(6) + "   " + b["type"])
+    enc = lambda s_: [ord(c) for c in s_]  # noqa: E731
+    t = {"name": enc(name), "atoms": [dict(a, name=enc(a["name"]), suffix=enc(a["suffix"])) for a in atoms],
+         "bonds": [dict(b, type=enc(b["type"])) for b in bonds], "lines": [enc(ln) for ln in lines], "exc": "", "off": False,
+         "loaded": {"atoms": [], "bonds": []},
+         "meta": {"recipe": rec, "source": "spec-written-mol2", "nontrivial": True,
+                  "impl_call": "Molecule.%s(<mol2: %d atoms, %d bonds>)" % ("load" if rec["via"] == "file" else "from_mol2_string", len(atoms), len(bonds))}}
+    text = "\n".join(lines) + "\n"
+    d = scratch()
+    try:
+        if rec["via"] == "file":
+            p_ = os.path.join(d, "lig.mol2")
+            with open(p_, "w") as fh:
+                fh.write(text)
+            m = Molecule.load(p_)
+        else:
+            m = Molecule.from_mol2_string(text)
+        pos = np.asarray(m.positions, dtype=float) * 10000.0
+        t["off"] = bool(np.any(np.abs(pos - np.rint(pos)) > 1e-6))
+        labels = m.labels if m.labels is not None else [""] * len(m)
+        t["loaded"]["atoms"] = [{"zel": int(z), "name": enc(str(lab)), "x": int(round(p[0])), "y": int(round(p[1])), "z": int(round(p[2]))}
+                                for z, lab, p in zip(m.atomic_numbers, labels, pos)]
+        if m.bonds is not None:
+            bm = m.bonds
+            pairs = set()
+            if hasattr(bm, "keys"):
+                pairs = {(int(min(i, j)) + 1, int(max(i, j)) + 1) for (i, j) in bm.keys()}
+            else:
+                ii, jj = np.nonzero(np.asarray(bm.todense() if hasattr(bm, "todense") else bm))
+                pairs = {(int(min(i, j)) + 1, int(max(i, j)) + 1) for i, j in zip(ii, jj)}
+            t["loaded"]["bonds"] = [list(x) for x in sorted(pairs)]
+    except Exception as e:  # noqa: BLE001
+        t["exc"] = type(e).__name__
+    finally:
+        shutil.rmtree(d, ignore_errors=True)
+    return t
+
+
+MOL2_SUFFIXES = {6: ["", ".3", ".2", ".1", ".ar", ".cat"], 7: ["", ".3", ".2", ".ar", ".am", ".pl3", ".4"], 8: ["", ".3", ".2", ".co2"],
+                 16: ["", ".3", ".2", ".O2"], 15: ["", ".3"], 1: [""], 9: [""], 17: [""], 35: [""], 26: [""], 11: [""]}
+
+
+def mol2_recipes(rng, count):
+    out = []
+    for _ in range(count):
+        n = rng.randint(1, 9)
+        atoms = []
+        for k in range(n):
+            zel = rng.choice(sorted(MOL2_SUFFIXES))
+            atoms.append({"name": (SYMBOLS[zel - 1] + str(k + 1)) if rng.random() < 0.8 else SYMBOLS[zel - 1].upper() + "X" + str(k),
+                          "x": rng.randint(-999999, 9999999), "y": rng.randint(-99999, 99999), "z": rng.randint(-99999, 99999),
+                          "zel": zel, "suffix": rng.choice(MOL2_SUFFIXES[zel])})
+        bonds, seen = [], set()
+        for _ in range(rng.randint(0, min(10, n * (n - 1) // 2))):
+            a, b = rng.sample(range(1, n + 1), 2)
+            if (min(a, b), max(a, b)) in seen:
+                continue
+            seen.add((min(a, b), max(a, b)))
+            bonds.append({"a": a, "b": b, "type": rng.choice(["1", "1", "2", "3", "ar", "ar", "am", "du", "un", "nc"])})
+        out.append({"name": rng.choice(["ligand", "benzene-ish", "m1", "X"]), "atoms": atoms, "bonds": bonds, "via": rng.choice(["string", "file"])})
+    return out
+
+
 def drive(recipe):
     k = recipe["k"]
     d = scratch()
@@ -612,6 +691,9 @@ def run(ctx, explain=False):
     # a few hundred small molecules take ~1.5 s in-process; forking 16 workers costs more than that
     traces = pool_map(drive, recipes, procs=1 if ctx.quick else None)
     ctx.validate(TRACE, traces, batch=ctx.pick(None, 1500), timeout=1500)
+    # beyond the listed property: .mol2 files as a source of molecules (Mol2File.tla: the specification writes the records)
+    mtraces = pool_map(drive_mol2, mol2_recipes(random.Random(ctx.seed * 139 + 16), ctx.pick(150, 2000)), procs=1 if ctx.quick else None)
+    ctx.validate("trace/Trace_Mol2File.tla", mtraces, name="Trace_Mol2File (extension)", extension=True, timeout=900)
     kinds = {}
     for t in traces:
         kinds[t["k"]] = kinds.get(t["k"], 0) + 1
